@@ -181,6 +181,10 @@ def verus_lane(pid, tier, cov, ledger, findings, assumptions):
             if key in open_f:
                 out['known'].append('%s -- %s' % (ob_id, open_f[key].get('what', '')))
                 continue
+            rel = f.module.replace('::', '/') + '.rs'
+            if w.lost_items.get(rel):
+                out['undecided'].append('%s fails but contract items lost their anchor in %s (%s): not a verdict' % (ob_id, rel, w.lost_items[rel][0]))
+                continue
             if lost_here:
                 out['undecided'].append('%s fails but proof hints lost their anchor (%s): not a verdict' % (ob_id, lost_here[0]))
                 continue
@@ -216,7 +220,7 @@ def verus_lane(pid, tier, cov, ledger, findings, assumptions):
     cov['checker_cmd'] = res.get('cmd', '') + '   # on the file woven from /repo/src by vlib/weave.py (sha256 %s)' % w.sha[:16]
     cov['trusted_base'] = tb
     cov['weaving'] = {'rewrites': {k: v for k, v in w.rewrites.items() if v}, 'dropped_items': {k: sorted(set(v) - {'comment'}) for k, v in w.dropped.items() if set(v) - {'comment'}},
-                      'erasure_check': 'passed for every file (woven text minus insertions/rewrites == source minus dropped items)', 'lost_hints': w.lost_hints}
+                      'erasure_check': 'passed for every file (woven text minus insertions/rewrites == source minus dropped items)', 'lost_hints': w.lost_hints, 'lost_loop_invariants': w.lost_loops, 'lost_items': w.lost_items}
     assumptions.append(IDEAL)
     assumptions.append('trusted base (axioms / external_body / assume_specification) as listed in coverage.trusted_base; user price getters are pure (T6)')
     assumptions.append('Verus, its Z3 and rustc are trusted; obligations = contract clauses, hints and one built-in-safety obligation per exec function, counted from the woven text')
